@@ -38,7 +38,11 @@ type Result struct {
 	Vars        map[int]any
 }
 
+// MaxStack: live variables plus pending operands (documented limit; exceeding it is a runtime error).
+const MaxStack = 1024
+
 type evaluator struct {
+	depth  int // live variables + pending operands
 	vars   map[int]any
 	blocks []*Block // open blocks, outermost first
 	res    *Result
@@ -84,16 +88,28 @@ func (ev *evaluator) stmt(s *Stmt) {
 		var v any
 		if s.X != nil {
 			v = ev.eval(s.X)
+		} else {
+			ev.push(s.End)
 		}
-		ev.vars[s.VarID] = v
+		ev.vars[s.VarID] = v // the value stays on the stack as the variable's slot
 	case SPrint:
 		ev.res.Out = append(ev.res.Out, Show(ev.eval(s.X)))
+		ev.depth--
 	case SEval, SExpr:
 		ev.eval(s.X)
+		ev.depth--
 	case SDef:
+		if len(ev.blocks) == MaxNest {
+			ev.fail("too-many-blocks", s.LBrace)
+		}
 		b := &Block{Type: s.Name, Name: s.BName, Fields: map[string]any{}}
 		ev.blocks = append(ev.blocks, b)
 		ev.stmts(s.Body)
+		for _, bs := range s.Body {
+			if bs.Kind == SVar {
+				ev.depth-- // the block's variables disappear
+			}
+		}
 		ev.blocks = ev.blocks[:len(ev.blocks)-1]
 		if len(ev.blocks) == 0 {
 			ev.res.Blocks = append(ev.res.Blocks, b)
@@ -139,15 +155,26 @@ func (ev *evaluator) stmt(s *Stmt) {
 
 func (ev *evaluator) cur() *Block { return ev.blocks[len(ev.blocks)-1] }
 
+// push accounts for one more value on the operand stack; at is the offset of the token producing it.
+func (ev *evaluator) push(at int) {
+	if ev.depth == MaxStack {
+		ev.fail("stack-overflow", at)
+	}
+	ev.depth++
+}
+
 func (ev *evaluator) eval(n *Node) any {
 	switch n.Kind {
 	case NLit:
+		ev.push(n.End)
 		return n.Val
 	case NParen:
 		return ev.eval(n.R)
 	case NVar:
+		ev.push(n.End)
 		return ev.vars[n.VarID]
 	case NField:
+		ev.push(n.End)
 		switch n.Name {
 		case "TYPE":
 			return ev.cur().Type
@@ -189,10 +216,12 @@ func (ev *evaluator) eval(n *Node) any {
 		if Falsey(l) {
 			return l
 		}
+		ev.depth--
 		return ev.eval(n.R)
 	case NOr:
 		l := ev.eval(n.L)
 		if Falsey(l) {
+			ev.depth--
 			return ev.eval(n.R)
 		}
 		return l
@@ -220,6 +249,7 @@ func (ev *evaluator) eval(n *Node) any {
 	case NBinary:
 		l := ev.eval(n.L)
 		r := ev.eval(n.R)
+		ev.depth--
 		v, errc, unspec := BinOp(n.Op, l, r)
 		if unspec != "" {
 			ev.res.Unspecified = unspec
